@@ -68,6 +68,9 @@ Proof. repeat split. Qed.
 Theorem required_memo_keyed_by_tag_and_type : gen_required_memo_per_tag = true.
 Proof. reflexivity. Qed.
 
+Theorem default_memo_keyed_by_reading_and_text : gen_default_memo_per_reading = true.
+Proof. reflexivity. Qed.
+
 (* httpx.Parse: path, form, headers, body — the order of the passes of a call in Check.v — then the validator *)
 Theorem parse_order_is_path_form_header_body :
   gen_parse_order = ["ParsePath"; "ParseForm"; "ParseHeaders"; "ParseJsonBody"] /\ gen_validator_after_passes = true.
